@@ -68,6 +68,7 @@ type Check struct {
 	Prefill *bool   `json:"prefill,omitempty"`
 	Limit   uint    `json:"limit,omitempty"`
 	Key     uint64  `json:"key,omitempty"` // hash key for derived choices
+	Max     int     `json:"max,omitempty"` // cap on offsets visited (0 = tier default)
 	Args    []string `json:"args,omitempty"`
 }
 
